@@ -285,8 +285,8 @@ def run_bin(exe_name, args, timeout=1800, stdin=None, env_extra=None):
 
 def jsonl(text):
     out = []
-    for line in text.splitlines():
-        line = line.strip()
+    for line in text.split("\n"):      # not splitlines(): U+0085/U+2028 inside JSON strings are data
+        line = line.strip(" \t\r")
         if line.startswith("{"):
             out.append(json.loads(line))
     return out
